@@ -25,8 +25,6 @@ def main(run):
     thorough = run.tier == "thorough"
     run.prove(["C14/Property.v"])
     names = [n for n in sas.compiled_model_names() if load_model_info(n).have_Fq]
-    if not thorough:
-        names = [n for n in QUICK if n in names]
     stats = dict(models=len(names), modes=0, mono=0, disperse=0, spherical_models=0, volume_sphere_modes=0, q_points=0, max_excess=0.0)
     evals, distinct = 0, set()
     np.random.seed(run.seed + 14)
@@ -57,7 +55,8 @@ def main(run):
             if disperse:
                 pdn = list(info.parameters.pd_1d)
                 # meshes on both sides of the 100-point chunk of the DLL driver: 5..81 points, 101, 151, 12 x 12
-                shape = rng.choice(["small", "small2", "one-big", "two-big"]) if rep != 1 else "one-big"
+                big_ok = thorough or name in QUICK          # models with inner quadratures are slow on 100+ point meshes
+                shape = ("one-big" if big_ok else "small") if rep == 1 else rng.choice(["small", "small2"] + (["one-big", "two-big"] if big_ok else []))
                 chosen = rng.sample(pdn, min(len(pdn), 1 if shape in ("small", "one-big") else 2))
                 for nm in chosen:
                     dpars[nm + "_pd"] = rng.uniform(0.05, 0.3); dpars[nm + "_pd_type"] = rng.choice(["gaussian", "schulz"])
@@ -76,6 +75,10 @@ def main(run):
                     run.add(Finding("C14:noF:%s" % name, "%s declares amplitude output but call_Fq returns no <F>" % name, desc)); break
                 F1 = np.asarray(F1); F2 = np.asarray(F2)
                 if not (np.all(np.isfinite(F1)) and np.all(np.isfinite(F2))):
+                    continue
+                if not F2.max() > 0:
+                    # matched contrast or a parameter set outside the model's validity region: nothing to compare
+                    stats["zero_intensity"] = stats.get("zero_intensity", 0) + 1
                     continue
                 excess = float(np.max(F1 ** 2 - F2 * (1 + 1e-12)))
                 stats["max_excess"] = max(stats["max_excess"], excess / float(F2.max()))
@@ -126,6 +129,8 @@ def main(run):
                     a1, a2, r_, sh_, ra_ = call_Fq(kq, dict(one, scale=1.0, background=0.0, radius_effective_mode=mode), cutoff=0.0)
                     if not (np.all(np.isfinite(a2)) and np.isfinite(sh_) and sh_ > 0):
                         allv = False; break
+                    if not np.any(np.asarray(a2) != 0) and sh_ == 1.0:
+                        continue        # a mesh point outside the model's validity region takes no part (nor its weight)
                     acc[0] += w * np.asarray(a1); acc[1] += w * np.asarray(a2); nr += w; sr += w * r_; sv += w * sh_; sf += w * sh_ * ra_
                 if allv and nr > 0:
                     evals += len(xs)
